@@ -75,3 +75,14 @@ _p("C14", modules=["cipher_suites"], level="proof", extra=[_c14_extra],
               "the oracle's own correctness is trusted; class identity of cryptography objects is compared by class name",
    design_ref="DESIGN.md 4 C14", explanation="", assumptions=[], trusted_base=["specs/iana_tls_cipher_suites.json is a faithful copy of the IANA registry"],
    not_under_contract=["Decryptor.decrypt dispatch totality (dispatch_total) is part of C01's contracts"])
+
+_p("C10", modules=["ports"], level="proof",
+   level_text="Each sentence of the property is a postcondition proved for all ports and ALL port maps (an uninterpreted map): both output builders compute "
+              "server_port' = keep ? p : (p in map ? map[p] : 8080) and leave the client port alone; get_port_map turns 'a:b' items into {a: b}; bare -m stores "
+              "['443:8080'] and clears keep_original_ports; the real add_argument/set_defaults calls give -m the SUPPRESS default and keep_original_ports=True; "
+              "the side on a server port becomes the server (TLS and QUIC); main.handle_packet creates a TLS session iff sport or dport is a server port.",
+   level_note="argparse's own behaviour (SUPPRESS, set_defaults, nargs) is an assumed contract; only the calls made by arg_parser_init are checked; strings are piece lists "
+              "(decimal renderings of non-negative integers and literals); the threading of keep_original_ports/portmap from run() to the builders is a call-site "
+              "obligation checked for main.handle_packet here and for the QUIC path in ports.quic_threading",
+   design_ref="DESIGN.md 4 C10", explanation="", assumptions=[], trusted_base=["argparse (ArgumentParser.add_argument/set_defaults/parse_args semantics)"],
+   not_under_contract=[])
